@@ -14,6 +14,7 @@ import (
 	"sort"
 	"strconv"
 	"strings"
+	"sync/atomic"
 	"time"
 
 	hook "github.com/pion/rtcp/zz_simhook"
@@ -173,25 +174,58 @@ func sigOf(s *RunSpec, rec []SwRec) uint64 {
 // task was descheduled inside code that another task then blocks on FOR REAL (a blocking primitive inside an
 // uninstrumented dependency, a wait the instrumenter did not recognise).  Exit code 5 tells the coordinator
 // to repeat the batch operation-granular, where no task is ever descheduled inside an operation.
-var runWatchdog *time.Timer
+
+// The watchdog is one goroutine for the life of the process.  Stuck means: no statement of the instrumented
+// module was reached for `limit` (a task blocked for real on something a descheduled task holds), or the run has
+// taken five times that long altogether (a livelock that keeps executing statements).  A run that is merely slow -
+// a giant value on a loaded machine - keeps ticking.  It talks to the main goroutine through atomics only (these
+// are touched at the start and the end of a run, never by a task).
+var (
+	wdStart   atomic.Int64 // start of the current run (Unix nanoseconds), 0 between runs
+	wdWhat    atomic.Value // its description
+	wdStarted bool
+)
 
 func armWatchdog(limit time.Duration, what string) {
-	if runWatchdog != nil {
-		runWatchdog.Stop()
+	wdWhat.Store(what)
+	wdStart.Store(time.Now().UnixNano())
+	if wdStarted {
+		return
 	}
-	runWatchdog = time.AfterFunc(limit, func() {
-		fmt.Fprintf(os.Stderr, "simulation stuck for %s in %s: goroutine dump follows\n", limit, what)
-		buf := make([]byte, 1<<20)
-		n := runtime.Stack(buf, true)
-		os.Stderr.Write(buf[:n])
-		os.Exit(5)
-	})
+	wdStarted = true
+	go func() {
+		var cur, last int64
+		var ticks uint64
+		for {
+			time.Sleep(limit / 8)
+			st := wdStart.Load()
+			now := time.Now().UnixNano()
+			if st == 0 {
+				cur = 0
+				continue
+			}
+			if t := progressTicks(); st != cur || t != ticks {
+				cur, ticks, last = st, t, now
+			}
+			if time.Duration(now-last) < limit && time.Duration(now-st) < 5*limit {
+				continue
+			}
+			w, _ := wdWhat.Load().(string)
+			fmt.Fprintf(os.Stderr, "simulation stuck for %s in %s: goroutine dump follows\n", limit, w)
+			buf := make([]byte, 1<<20)
+			n := runtime.Stack(buf, true)
+			os.Stderr.Write(buf[:n])
+			os.Exit(5)
+		}
+	}()
 }
+
+func disarmWatchdog() { wdStart.Store(0) }
 
 func executeRun(s *RunSpec, runIdx int, racePath string) (doneEv, *violEv) {
 	t0 := time.Now() // wall time is reported only; it never feeds a decision
 	armWatchdog(watchdogLimit, fmt.Sprintf("run %d (seed %d)", runIdx, s.Seed))
-	defer runWatchdog.Stop()
+	defer disarmWatchdog()
 	var pre *world
 	if s.PreRef && !s.Cold {
 		pre = runReference(s)
@@ -367,6 +401,7 @@ func main() {
 	wd := flag.Int("watchdog", 60, "seconds after which a single run is declared stuck (exit 5)")
 	cpuprof := flag.String("cpuprofile", "", "write a CPU profile (development aid)")
 	only := flag.Int("only", -1, "execute only this run of the batch (in a process without history)")
+	backwards := flag.Bool("backwards", false, "volume operations walk their distinct values in reverse order (history-free twin process of O8)")
 	opHashes := flag.Bool("ophashes", false, "report one digest per operation with every run")
 	calib := flag.Bool("calibrate", false, "print which packet kinds and unit operations reach statements that touch shared state")
 	hot := flag.String("hot", "", "result of the calibration pass (kinds:units, hexadecimal masks)")
@@ -439,6 +474,7 @@ func main() {
 		return
 	}
 	wantOpHashes = *opHashes
+	volumeBackwards = *backwards
 	for j, s := range specs {
 		if *only >= 0 && j != *only {
 			continue
